@@ -1,0 +1,52 @@
+//! Verification hooks. Compiled only with `--cfg john_yu_sm9_core_verif`; with the guard
+//! off this module and every call into it do not exist.
+//!
+//! * `tick()` is called from the data-dependent loops of `U256::invert` and
+//!   `U256::add_carry`; once more than `budget` ticks have happened since the last
+//!   `set_budget` it panics with `TICK_PANIC`, which turns "does not terminate" into a
+//!   deterministic, replayable outcome for a simulator.
+//! * `raw_fr` / `raw_fq` / `raw_fq2` expose the stored Montgomery limbs read-only.
+use core::sync::atomic::{AtomicU64, Ordering};
+
+pub const TICK_PANIC: &str = "verif: tick budget exceeded";
+
+static TICKS: AtomicU64 = AtomicU64::new(0);
+static BUDGET: AtomicU64 = AtomicU64::new(u64::MAX);
+
+/// Resets the tick counter and sets the number of ticks allowed until the next reset.
+pub fn set_budget(budget: u64) {
+    TICKS.store(0, Ordering::SeqCst);
+    BUDGET.store(budget, Ordering::SeqCst);
+}
+
+/// Ticks counted since the last `set_budget`.
+pub fn ticks() -> u64 {
+    TICKS.load(Ordering::SeqCst)
+}
+
+#[inline]
+pub(crate) fn tick() {
+    let t = TICKS.fetch_add(1, Ordering::SeqCst) + 1;
+    if t > BUDGET.load(Ordering::SeqCst) {
+        panic!("{}", TICK_PANIC);
+    }
+}
+
+fn limbs(u: &crate::u256::U256) -> [u64; 4] {
+    [u[0], u[1], u[2], u[3]]
+}
+
+/// Stored (Montgomery) limbs of an `Fr`, least significant first.
+pub fn raw_fr(a: &crate::Fr) -> [u64; 4] {
+    limbs(a.0.raw())
+}
+
+/// Stored (Montgomery) limbs of an `Fq`, least significant first.
+pub fn raw_fq(a: &crate::Fq) -> [u64; 4] {
+    limbs(a.0.raw())
+}
+
+/// Stored limbs of an `Fq2` as (real, imaginary).
+pub fn raw_fq2(a: &crate::Fq2) -> ([u64; 4], [u64; 4]) {
+    (limbs(a.0.real().raw()), limbs(a.0.imaginary().raw()))
+}
